@@ -16,11 +16,24 @@
            files                                          -> <num>...
            refread <addr>                                 -> some <value> | none
            refwrite <addr> <value>                        -> some <words of the addressed file afterwards> | none
+   directory (Model/SlcDir.v, Spec/SlcDirSpec.v):
+   model:  sys0 <catalog text>                            -> sys0 <pos> <row> <file_type> <size_element> <size_len> <size_const|none> <queue|none>
+           parsefile0 <catalog text> <image>              -> ok <n> (<name> <elements> <length>)*n | exn <code> | fuel
+           parsefile0at <pos> <row> <image>               -> same (any position / row size)
+           counts <image>                                 -> some <data files> <logic files> | none
+           readdir <size> <chunk> <image>                 -> ok <data> <n> (<size> <offset>)*n | exn <code> | fuel
+           dirreq <vid> <vsn> <tns> <catalog> <size> <offset> | sizereq <vid> <vsn> <tns> <catalog> | ptreq <vid> <vsn> <tns>  -> ok <bytes> | exn <code>
+           sizeof <catalog> <raw>                         -> some <size> | none
+           ptype <raw>                                    -> typ <text> | nonascii
+   spec:   encdir <catalog> <hdr> (<type index> <num> <elements>)*   -> dir <image> <n> (<name> <elements> <length>)*n
+           encrows <hdr> (f <type index> <elements> <fill> | r <fill> | o <code> <fill>)*  -> dir <image> <n> (...)*n
+           family <catalog>                               -> fam <position> <row size>
    value:  i <int> | b <0/1> | f <bits> | l <n> <value>*n
    addr:   <ft symbol N B F L S I O T C> <file> <elem> <sub> <bit or -1> <count>
    spelling: <lower> <mnemonic lower flags as bytes> <pad file> <pad elem> <pad sub> <pad bit> <pad count> <flat> <iofile> <ioword> <count1> *)
 From Coq Require Import String.
 From PV Require Import Base.Bytes Base.Proto Base.Res Base.PyStr Model.Regex Model.SlcVal Model.Slc Spec.SlcTarget.
+From PV Require Model.SlcDir Spec.SlcDirSpec.
 From Coq Require Import ExtrOcamlBasic.
 Open Scope string_scope.
 Open Scope list_scope.
@@ -130,6 +143,160 @@ Definition init_state : state := {| st_table := []; st_last := None |}.
 
 Definition b01 (b : bool) : tok := TInt (if b then 1 else 0).
 Definition bad (s : string) : list tok := [sym "ERR"; sym s].
+
+(* ---------------------------------------------------------------- the file directory *)
+Module Dir.
+Import Model.SlcDir Spec.SlcDirSpec.
+
+Definition toks_of_ob (o : option bytes) : tok := match o with Some b => TBytes b | None => sym "none" end.
+Definition toks_of_entries (es : list (text * (Z * Z))) : list tok :=
+  TInt (Z.of_nat (length es)) :: flat_map (fun e => [TText (fst e); TInt (fst (snd e)); TInt (snd (snd e))]) es.
+Definition toks_of_dres (r : dres) : list tok :=
+  match r with
+  | DOk d => sym "ok" :: toks_of_entries (map (fun kv => (fst kv, (fe_elements (snd kv), fe_length (snd kv)))) d)
+  | DExn e => [sym "exn"; TInt (exn_code e)]
+  | DFuel => [sym "fuel"]
+  end.
+Definition toks_of_rres (r : rres) : list tok :=
+  match r with
+  | ROk data reads => sym "ok" :: TBytes data :: TInt (Z.of_nat (length reads))
+                      :: flat_map (fun so => [TInt (fst so); TInt (snd so)]) reads
+  | RExn e => [sym "exn"; TInt (exn_code e)]
+  | RFuel => [sym "fuel"]
+  end.
+Definition toks_of_resb (r : res bytes) : list tok :=
+  match r with Ok b => [sym "ok"; TBytes b] | Err e => [sym "exn"; TInt (exn_code e)] end.
+
+Definition dtype_of_idx (i : Z) : option dtype := nth_error all_dtypes (Z.to_nat i).
+
+Fixpoint files_of_toks (fuel : nat) (ts : list tok) : option (list dfile) :=
+  match ts with
+  | [] => Some []
+  | TInt ti :: TInt num :: TInt el :: r =>
+      match fuel, dtype_of_idx ti with
+      | S f, Some t => match files_of_toks f r with
+                       | Some fs => Some ({| d_type := t; d_num := num; d_elements := el |} :: fs)
+                       | None => None
+                       end
+      | _, _ => None
+      end
+  | _ => None
+  end.
+
+Fixpoint rows_of_toks (fuel : nat) (ts : list tok) : option (list row) :=
+  match fuel with
+  | O => match ts with [] => Some [] | _ => None end
+  | S f =>
+      match ts with
+      | [] => Some []
+      | k :: r =>
+          if is_sym "f" k then
+            match r with
+            | TInt ti :: TInt el :: TBytes fill :: r' =>
+                match dtype_of_idx ti, rows_of_toks f r' with
+                | Some t, Some rows => Some (RFile t el fill :: rows)
+                | _, _ => None
+                end
+            | _ => None
+            end
+          else if is_sym "r" k then
+            match r with
+            | TBytes fill :: r' => match rows_of_toks f r' with Some rows => Some (RReserved fill :: rows) | None => None end
+            | _ => None
+            end
+          else if is_sym "o" k then
+            match r with
+            | TInt c :: TBytes fill :: r' => match rows_of_toks f r' with Some rows => Some (RForeign c fill :: rows) | None => None end
+            | _ => None
+            end
+          else None
+      end
+  end.
+
+Definition handle_dir (cmd : tok) (args : list tok) : option (list tok) :=
+  if is_sym "sys0" cmd then
+    match args with
+    | [TText cat] =>
+        let s := get_sys0_info cat in
+        Some [sym "sys0"; TInt (s_file_position s); TInt (s_row_size s); TBytes (s_file_type s); TBytes (s_size_element s);
+              TBytes (s_size_len s); toks_of_oz (s_size_const s); toks_of_ob (s_file_type_queue s)]
+    | _ => Some (bad "args")
+    end
+  else if is_sym "parsefile0" cmd then
+    match args with
+    | [TText cat; TBytes data] => Some (toks_of_dres (parse_file0 (get_sys0_info cat) data))
+    | _ => Some (bad "args")
+    end
+  else if is_sym "parsefile0at" cmd then
+    match args with
+    | [TInt pos; TInt rs; TBytes data] => Some (toks_of_dres (parse_file0_at (Z.to_nat pos) (Z.to_nat rs) data))
+    | _ => Some (bad "args")
+    end
+  else if is_sym "counts" cmd then
+    match args with
+    | [TBytes data] => Some (match file0_counts data with Some (a, b) => [sym "some"; TInt a; TInt b] | None => [sym "none"] end)
+    | _ => Some (bad "args")
+    end
+  else if is_sym "readdir" cmd then
+    match args with
+    | [TInt size; TInt chunk; TBytes image] =>
+        Some (toks_of_rres (read_loop (S (Z.to_nat size)) chunk size (serve_image image) [] 0 []))
+    | _ => Some (bad "args")
+    end
+  else if is_sym "dirreq" cmd then
+    match args with
+    | [TBytes vid; TBytes vsn; TInt tns; TText cat; TInt size; TInt off] =>
+        Some (toks_of_resb (dir_read_request {| c_vid := vid; c_vsn := vsn |} tns (get_sys0_info cat) size off))
+    | _ => Some (bad "args")
+    end
+  else if is_sym "sizereq" cmd then
+    match args with
+    | [TBytes vid; TBytes vsn; TInt tns; TText cat] =>
+        Some (toks_of_resb (dir_size_request {| c_vid := vid; c_vsn := vsn |} tns (get_sys0_info cat)))
+    | _ => Some (bad "args")
+    end
+  else if is_sym "ptreq" cmd then
+    match args with
+    | [TBytes vid; TBytes vsn; TInt tns] => Some (toks_of_resb (proc_type_request {| c_vid := vid; c_vsn := vsn |} tns))
+    | _ => Some (bad "args")
+    end
+  else if is_sym "sizeof" cmd then
+    match args with
+    | [TText cat; TBytes raw] =>
+        Some (match dir_size_of_reply (get_sys0_info cat) raw with Some z => [sym "some"; TInt z] | None => [sym "none"] end)
+    | _ => Some (bad "args")
+    end
+  else if is_sym "ptype" cmd then
+    match args with
+    | [TBytes raw] => Some (match proc_type_of_reply raw with PTyp s => [sym "typ"; TText s] | PNonAscii => [sym "nonascii"] end)
+    | _ => Some (bad "args")
+    end
+  else if is_sym "encdir" cmd then
+    match args with
+    | TText cat :: TBytes hdr :: r =>
+        match files_of_toks (length r) r with
+        | Some fs => Some (sym "dir" :: TBytes (encode_dir (family_of_catalog cat) hdr fs) :: toks_of_entries (dir_view fs))
+        | None => Some (bad "files")
+        end
+    | _ => Some (bad "args")
+    end
+  else if is_sym "encrows" cmd then
+    match args with
+    | TBytes hdr :: r =>
+        match rows_of_toks (length r) r with
+        | Some rows => Some (sym "dir" :: TBytes (encode_rows hdr rows) :: toks_of_entries (number_rows 0 rows))
+        | None => Some (bad "rows")
+        end
+    | _ => Some (bad "args")
+    end
+  else if is_sym "family" cmd then
+    match args with
+    | [TText cat] => let f := family_of_catalog cat in
+                     Some [sym "fam"; TInt (Z.of_nat (fam_position f)); TInt (Z.of_nat (fam_row f))]
+    | _ => Some (bad "args")
+    end
+  else None.
+End Dir.
 
 Definition handle (st : state) (ts : list tok) : state * list tok :=
   match ts with
@@ -266,7 +433,10 @@ Definition handle (st : state) (ts : list tok) : state * list tok :=
             end
         | None => (st, bad "addr")
         end
-      else (st, bad "cmd")
+      else match Dir.handle_dir cmd args with
+           | Some out => (st, out)
+           | None => (st, bad "cmd")
+           end
   end.
 
 Definition step_line (st : state) (line : list Z) : state * list Z :=
